@@ -30,8 +30,11 @@ int
 main (void)
 {	SF_PRIVATE *psf = &g_psf ;
 	HSNAP before, other_before ;
-	sf_count_t nd_off = nondet_i64 (), ret, ref, target = 0, F ;
-	int nd_whence = nondet_int (), nd_fail = nondet_int (), nd_noseek = nondet_int () ;
+	sf_count_t nd_off = nondet_i64 () ;
+	sf_count_t ret, ref, target = 0, F ;
+	int nd_whence = nondet_int () ;
+	int nd_fail = nondet_int () ;
+	int nd_noseek = nondet_int () ;
 	int sel, w, valid_whence, mode, shortcut = 0 ;
 
 	handle_arbitrary (psf, CH, 2) ;
